@@ -457,14 +457,10 @@ func (a *asset) generateTimelineEntries(repID string, wt wrapTimes, atoMS int) s
 		mediaTimescale: uint32(rep.MediaTimescale),
 	}
 
-	loopDur := uint64(rep.duration())
 	// The availabilityTimeOffset may reach into the next loop(s) of the asset
 	// Add the offset in milliseconds before converting, so that "finished" is decided exactly
-	relStartTime := uint64((wt.startRelMS + atoMS) * rep.MediaTimescale / 1000)
-	if loopDur > 0 && relStartTime >= loopDur {
-		wt.startWraps += int(relStartTime / loopDur)
-		relStartTime %= loopDur
-	}
+	relStartTime, startWraps := normalizeToLoop((wt.startRelMS+atoMS)*rep.MediaTimescale/1000, rep.duration())
+	wt.startWraps += startWraps
 	relStartIdx := 0
 	if relStartTime < segs[0].EndTime {
 		wt.startWraps--
@@ -481,11 +477,8 @@ func (a *asset) generateTimelineEntries(repID string, wt wrapTimes, atoMS int) s
 		wt.startWraps = 0
 	}
 
-	relNowTime := uint64((wt.nowRelMS + atoMS) * rep.MediaTimescale / 1000)
-	if loopDur > 0 && relNowTime >= loopDur {
-		wt.nowWraps += int(relNowTime / loopDur)
-		relNowTime %= loopDur
-	}
+	relNowTime, nowWraps := normalizeToLoop((wt.nowRelMS+atoMS)*rep.MediaTimescale/1000, rep.duration())
+	wt.nowWraps += nowWraps
 	relNowIdx := 0
 	if relNowTime < segs[0].EndTime {
 		wt.nowWraps--
@@ -532,6 +525,24 @@ func (a *asset) generateTimelineEntries(repID string, wt wrapTimes, atoMS int) s
 	}
 	se.lsi = lsi
 	return se
+}
+
+// normalizeToLoop splits a time relative to a loop start into a time inside the loop and a number of loops.
+// The number of loops is negative if t is negative (times before the loop start must not become huge unsigned values).
+func normalizeToLoop(t, loopDur int) (inLoop uint64, loops int) {
+	if loopDur <= 0 {
+		if t < 0 {
+			return 0, -1
+		}
+		return uint64(t), 0
+	}
+	loops = t / loopDur
+	t -= loops * loopDur
+	if t < 0 {
+		t += loopDur
+		loops--
+	}
+	return uint64(t), loops
 }
 
 // generateTimelineEntriesFromRef generates timeline entries for the given representation given reference.
